@@ -80,12 +80,31 @@ def run(ctx):
                   "field i of a box is stored into buffer i over the box's (sx, sy) span; grid_level gets the box's level",
                   f"stores are {stores}", where=loc(pl, red))
     e = {norm(n.targets[0]): norm(n.value) for n in walk_no_nested(pl.node) if isinstance(n, ast.Assign)}
-    ok = e.get("all_data") == "[self.limit_level_arr() for _ in range(self.nfidxs)]" and e.get("all_data[i]") == "data.T"
-    tl = [n for n in walk_no_nested(pl.node) if isinstance(n, ast.For) and norm(n.iter) == "enumerate(all_data)"]
+    # one buffer per field; grid_level appended last; then ONE transposition that covers every array of all_data
+    # (in place over enumerate(all_data), or as a comprehension re-binding all_data) — after the append
+    allocs = [n for n in walk_no_nested(pl.node) if isinstance(n, ast.Assign) and norm(n.targets[0]) == "all_data"
+              and norm(n.value) == "[self.limit_level_arr() for _ in range(self.nfidxs)]"]
+    tsites = []
+    for n in walk_no_nested(pl.node):
+        if isinstance(n, ast.For) and norm(n.iter) == "enumerate(all_data)" and isinstance(n.target, ast.Tuple) \
+                and len(n.target.elts) == 2 and [norm(b) for b in n.body] == [
+                    f"all_data[{norm(n.target.elts[0])}] = {norm(n.target.elts[1])}.T"]:
+            tsites.append(n)
+        if isinstance(n, ast.Assign) and norm(n.targets[0]) == "all_data" and isinstance(n.value, ast.ListComp) \
+                and len(n.value.generators) == 1 and not n.value.generators[0].ifs \
+                and norm(n.value.generators[0].iter) == "all_data" and isinstance(n.value.generators[0].target, ast.Name) \
+                and norm(n.value.elt) == f"{n.value.generators[0].target.id}.T":
+            tsites.append(n)
+    other_T = [n for n in walk_no_nested(pl.node) if isinstance(n, ast.Attribute) and n.attr in ("T", "transpose")
+               and not any(x is n for t in tsites for x in ast.walk(t))]
     ap = [n.lineno for n in walk_no_nested(pl.node) if isinstance(n, ast.Expr) and norm(n) == "all_data.append(grid_level)"]
-    ctx.check(ok and len(tl) == 1 and ap and ap[0] < tl[0].lineno, f"{P}.TRANSPOSE", pl.site,
+    ok = len(allocs) == 1 and len(tsites) == 1 and not other_T and bool(ap) and ap[0] < tsites[0].lineno
+    ctx.check(ok, f"{P}.TRANSPOSE", pl.site,
               "one buffer per field, grid_level appended last, then the same transpose applied to every array",
-              f"buffers/transposes: {e.get('all_data')}, {e.get('all_data[i]')}")
+              f"buffers: {[norm(a.value) for a in allocs]}; transposition sites over all_data: "
+              f"{[norm(t)[:60] for t in tsites]} (other transposes: {[norm(x) for x in other_T]}); grid_level appended at "
+              f"line {ap[:1]}, transposition at {[t.lineno for t in tsites]}: every array, grid_level included, must go "
+              f"through the same single transposition", semantic=len(tsites) >= 1 and bool(ap))
     ini = prog.func(MA, "Mandoline.__init__", P)
     e = {norm(n.targets[0]): norm(n.value) for n in walk_no_nested(ini.node) if isinstance(n, ast.Assign)}
     ctx.check(e.get("self.nfidxs") == "len([i for i in self.fidxs if i is not None])", f"{P}.COUNT", ini.site,
